@@ -103,7 +103,7 @@ theorem side_body (stp : PState) (o c : PToken) (nodes' : Array ParseNode) (info
     cases hfs with
     | bracket g G pg h1 h2 h3 h4 h5 h6 =>
       exact .bracket _ G pg (by rw [hnO']; exact h1) (by rw [hnpO']; exact h2) (by rw [hnO']; exact h3) h4 h5 h6
-  obtain ⟨stE, E, re, cbE, hloopE, hinvE, hgsE, hcgE, ho1E, ho2E, hrdE, hrefE⟩ :=
+  obtain ⟨stE, E, re, cbE, hloopE, hinvE, hgsE, hcgE, ho1E, ho2E, hrdE, hcntE, hrefE⟩ :=
     (ex_ok body false hbody).1 sO' _ _ _ hOO' hfs' (by rw [hnO']; exact hpriosO)
       (by unfold CGOK at hcgO ⊢; rw [hcgO', hgsO']; exact hcgO)
       ⟨_, by rw [hnO']; exact hgO, rfl⟩ hspO pos hnum ((wsB ++ [c]) ++ rest)
